@@ -27,6 +27,7 @@ across suspension points - no future other than the tasks shutdown() itself term
 peer map (and with it the event sender) or a clone of the user's service while suspended at an await. The assert
 on an empty peer map in shutdown() is not dischargeable and is reported as a known finding; (7) closed world of task
 creation - every spawn in the library is the manager task or goes onto one of the three JoinSets shutdown terminates.
+(8) no library type stores a handle to the bound UDP socket and the socket is never duplicated, so the endpoint's own socket is the only thing keeping the address bound.
 """
 TRUSTED = ["tokio: JoinSet::shutdown/abort semantics, yield_now returns Pending once, mpsc/oneshot close semantics", "quinn: Endpoint::close / wait_idle / rebind"]
 NOT_DECIDED = ["latency ('within the configured bound' — only the presence of the bound is decided)", "OS socket re-bindability", "remote peers observing the disconnect",
